@@ -3,7 +3,7 @@ import numpy as np
 from ..runner import Acc, HarnessError
 from ..refmodel import Fmt
 from .. import alphabet as al
-from ..common import Fxp, codes, flags, fmt_of, reset_class_state, build
+from ..common import AGED, Fxp, codes, flags, fmt_of, reset_class_state, build
 
 ID = 'C13'
 RULE = ('cases = (x format, y kind [Fxp of either signedness / int mask right / int mask left], operator in {~,&,|,^}, code pair); result must have '
@@ -12,6 +12,7 @@ RULE = ('cases = (x format, y kind [Fxp of either signedness / int mask right / 
 ASSUMPTIONS = ['array op array is not claimed by the property and not judged (array x with scalar y / mask is)']
 
 BIN = {'&': lambda a, b: a & b, '|': lambda a, b: a | b, '^': lambda a, b: a ^ b}
+BINL = ('&', '|', '^')
 WIDE_WORDS = (16, 31, 32, 33, 63, 64, 65, 100, 128)
 
 
@@ -25,8 +26,9 @@ def unpat(p, f):
 
 def mkx(f, cs, by='raw'):
     """cs: list -> array object; int -> scalar object"""
-    if by == 'value' and f.n_word < 64:
-        return build(f, cs if isinstance(cs, list) else [cs], (len(cs),) if isinstance(cs, list) else (), 'value')
+    if by != 'raw' and f.n_word < 64:
+        # 'value' or one of common.AGED (the operand reached through a history)
+        return build(f, cs if isinstance(cs, list) else [cs], (len(cs),) if isinstance(cs, list) else (), by)
     if isinstance(cs, list):
         arr = np.array(cs, dtype=object if f.n_word >= 64 else np.int64)
         return Fxp(arr, f.signed, f.n_word, f.n_frac, raw=True)
@@ -89,17 +91,17 @@ def judge_binary(acc, fxm, xs, ykind, yf, yc, op, part, by='raw', inplace=False,
     acc.sample(dict(case, xs=xl[:3] if arr else xs), 1)
 
 
-def judge_invert(acc, fxm, xs, part, ovf='saturate'):
+def judge_invert(acc, fxm, xs, part, ovf='saturate', by='raw'):
     n = fxm.n_word
     arr = isinstance(xs, list)
     xl = xs if arr else [xs]
-    case = {'part': part, 'fx': list(fxm), 'xs': xs, 'op': '~', 'ovf': ovf}
+    case = {'part': part, 'fx': list(fxm), 'xs': xs, 'op': '~', 'ovf': ovf, 'by': by}
     acc.evaluations += 3 * len(xl)
     acc.transitions += 3
     acc.nontrivial += sum(1 for c in xl if c < 0)
     acc.dim('op', '~', len(xl))
     try:
-        x = mkx(fxm, xs)
+        x = mkx(fxm, xs, by)
         x.config.overflow = ovf
         z = ~x
         zz = ~z
@@ -119,6 +121,53 @@ def judge_invert(acc, fxm, xs, part, ovf='saturate'):
     if fxm.signed and got != [-c - 1 for c in xl]:
         acc.violation('neg_identity', case, '~x != -x - LSB on %s' % fxm.dtype, {'part': part, 'op': '~'})
     acc.outcome('invert_ok', len(xl))
+
+
+def judge_arrays(acc, fxm, yf, xs, ys, op, shape_mode, part, by='raw'):
+    """both operands arrays: 'outer' (n,1)x(1,m) every code pair in one operation | 'vec' equal lengths | 'mat_vec' (2,k)x(k,) |
+    'scalar_vec' ()x(m,)"""
+    n = fxm.n_word
+    case = {'part': part, 'arrays': shape_mode, 'fx': list(fxm), 'fy': list(yf), 'xs': list(xs), 'ys': list(ys), 'op': op, 'by': by}
+    if shape_mode == 'outer':
+        shx, shy, pairs, eshape = (len(xs), 1), (1, len(ys)), [(a, b) for a in xs for b in ys], (len(xs), len(ys))
+    elif shape_mode == 'vec':
+        m = min(len(xs), len(ys))
+        xs, ys = xs[:m], ys[:m]
+        shx, shy, pairs, eshape = (m,), (m,), list(zip(xs, ys)), (m,)
+    elif shape_mode == 'mat_vec':
+        k = min(len(xs) // 2, len(ys))
+        if k < 1:
+            return
+        xs, ys = xs[:2 * k], ys[:k]
+        shx, shy, pairs, eshape = (2, k), (k,), [(xs[i * k + j], ys[j]) for i in range(2) for j in range(k)], (2, k)
+    else:
+        xs = xs[:1]
+        shx, shy, pairs, eshape = (), (len(ys),), [(xs[0], b) for b in ys], (len(ys),)
+    acc.evaluations += len(pairs)
+    acc.transitions += 1
+    acc.dim('ykind', 'fxp_array/' + shape_mode, len(pairs))
+    acc.dim('op', op, len(pairs))
+    acc.nontrivial += sum(1 for a, b in pairs if a < 0 or b < 0 or yf.signed != fxm.signed)
+    try:
+        if n >= 64:
+            x = Fxp(np.array(xs, dtype=object).reshape(shx) if shx else xs[0], fxm.signed, n, fxm.n_frac, raw=True)
+            y = Fxp(np.array(ys, dtype=object).reshape(shy), yf.signed, n, yf.n_frac, raw=True)
+        else:
+            x, y = build(fxm, xs, shx, by), build(yf, ys, shy, by)
+        z = do(op, x, y)
+        got = codes(z)
+    except Exception as e:
+        acc.violation('exception', case, '%s %s %s with array operands (%s) raised %r' % (fxm.dtype, op, yf.dtype, shape_mode, e),
+                      {'part': part, 'op': op, 'ykind': 'fxp_array', 'wide': n >= 64})
+        return
+    exp = [unpat(BIN[op](pat(a, n), pat(b, n)), fxm) for a, b in pairs]
+    if fmt_of(z) != fxm or got != exp or tuple(np.shape(z.val)) != eshape or flags(z)[:2] != (False, False) or codes(x) != list(xs) or codes(y) != list(ys):
+        i = [j for j in range(len(exp)) if j >= len(got) or got[j] != exp[j]]
+        i = i[0] if i else 0
+        acc.violation('pattern', case, '%s code %d %s %s code %d (array operands, %s): result %s shape %s code %s, expected %s code %d'
+                      % (fxm.dtype, pairs[i][0], op, yf.dtype, pairs[i][1], shape_mode, z.dtype, np.shape(z.val), got[i] if i < len(got) else None,
+                         fxm.dtype, exp[i]), {'part': part, 'op': op, 'ykind': 'fxp_array'})
+    acc.sample(dict(case, xs=list(xs)[:3], ys=list(ys)[:3]), 1)
 
 
 def judge_demorgan(acc, fxm, a, b, part):
@@ -278,12 +327,20 @@ def run_shard(sh):
             xs = list(range(fxm.lo, fxm.hi + 1))
             judge_invert(acc, fxm, xs, 'S')
             judge_invert(acc, fxm, xs, 'S', 'wrap')
+            for how in AGED:
+                judge_invert(acc, fxm, xs, 'S', 'saturate', how)
+                judge_invert(acc, fxm, xs[-1], 'S', 'saturate', how)
             for c in xs:
                 judge_invert(acc, fxm, c, 'S')
                 judge_invert(acc, fxm, c, 'S', 'wrap')
             for sy in (True, False):
                 for nfy in sorted({0, nw}):
                     yf = Fmt(sy, nw, nfy)
+                    ys_all = list(range(yf.lo, yf.hi + 1))
+                    for op in BIN:
+                        for sm in ('outer', 'vec', 'mat_vec', 'scalar_vec'):
+                            judge_arrays(acc, fxm, yf, xs, ys_all, op, sm, 'S')
+                        judge_arrays(acc, fxm, yf, xs, ys_all, op, 'outer', 'S', 'value' if nf in (0, nw) else AGED[(nf + nfy) % len(AGED)])
                     for yc in range(yf.lo, yf.hi + 1):
                         for op in BIN:
                             judge_binary(acc, fxm, xs, 'fxp', yf, yc, op, 'S')
@@ -292,6 +349,10 @@ def run_shard(sh):
                                 judge_binary(acc, fxm, xs, 'fxp', yf, yc, op, 'S', 'raw', True)            # x &= y
                                 judge_binary(acc, fxm, xs, 'fxp', yf, yc, op, 'S', 'raw', False, 'wrap')   # x configured to wrap
                                 judge_binary(acc, fxm, xs[0], 'fxp', yf, yc, op, 'S', 'raw', True, 'wrap')
+                                if yc in (yf.lo, yf.hi, 1):
+                                    # operands reached through a history: all of them for n_word<=2, one in rotation above
+                                    for how in (AGED if nw <= 2 else (AGED[(yc + nfy + BINL.index(op) + int(sy)) % len(AGED)],)):
+                                        judge_binary(acc, fxm, xs, 'fxp', yf, yc, op, 'S', how)
                             if nw <= sh['ks'] and nf in (0, nw):
                                 for c in xs:
                                     judge_binary(acc, fxm, c, 'fxp', yf, yc, op, 'Ss')
@@ -326,6 +387,9 @@ def run_shard(sh):
                 yf = Fmt(sy, nw, 0)
                 ycs[yf] = sorted({yf.lo, yf.hi, 1, yf.hi // 3, (yf.lo // 3) if sy else yf.hi - 1, al.seed_bits(sh['seed'], 'c13', nw - 1, 1)[0]})
             for yf, ys in ycs.items():
+                for op in BIN:
+                    for sm in ('outer', 'vec', 'scalar_vec'):
+                        judge_arrays(acc, fxm, yf, xs, ys, op, sm, 'W')
                 for yc in ys:
                     for op in BIN:
                         judge_binary(acc, fxm, xs, 'fxp', yf, yc, op, 'W')
@@ -353,6 +417,9 @@ def run_shard(sh):
 def replay(case):
     reset_class_state()
     acc = Acc()
+    if case.get('arrays'):
+        judge_arrays(acc, Fmt(*case['fx']), Fmt(*case['fy']), case['xs'], case['ys'], case['op'], case['arrays'], case['part'], case.get('by', 'raw'))
+        return acc.violations
     if case.get('history'):
         judge_history(acc, Fmt(*case['fx']), case['grow'], case['part'])
         return [v for v in acc.violations if v['case'].get('via') == case['via'] and v['case'].get('code') == case['code']]
@@ -364,7 +431,7 @@ def replay(case):
     elif case.get('demorgan'):
         judge_demorgan(acc, Fmt(*case['fx']), case['a'], case['b'], case['part'])
     elif case['op'] == '~':
-        judge_invert(acc, Fmt(*case['fx']), case['xs'], case['part'], case.get('ovf', 'saturate'))
+        judge_invert(acc, Fmt(*case['fx']), case['xs'], case['part'], case.get('ovf', 'saturate'), case.get('by', 'raw'))
     else:
         judge_binary(acc, Fmt(*case['fx']), case['xs'], case['ykind'], Fmt(*case['fy']) if case['fy'] else None, case['yc'], case['op'], case['part'], case.get('by', 'raw'), case.get('inplace', False), case.get('ovf', 'saturate'))
     return acc.violations
